@@ -75,27 +75,29 @@ where
     type Item = Trpl<'a, TI>;
 
     fn next(&mut self) -> Option<Self::Item> {
-        let [si, pi, oi] = *self.spo.next()?;
+        // NB: a loop rather than a tail call, so that skipping any number of
+        // non-matching rows requires a constant amount of stack
+        loop {
+            let [si, pi, oi] = *self.spo.next()?;
 
-        if si != self.s.i {
-            self.s.update(si, self.terms);
-        }
-        if !self.s.b {
-            return self.next();
-        }
+            if si != self.s.i {
+                self.s.update(si, self.terms);
+            }
+            if !self.s.b {
+                continue;
+            }
 
-        if pi != self.p.i {
-            self.p.update(pi, self.terms);
-        }
-        if !self.p.b {
-            return self.next();
-        }
+            if pi != self.p.i {
+                self.p.update(pi, self.terms);
+            }
+            if !self.p.b {
+                continue;
+            }
 
-        self.o.update(oi, self.terms);
-        if !self.o.b {
-            self.next()
-        } else {
-            Some([self.s.t, self.p.t, self.o.t])
+            self.o.update(oi, self.terms);
+            if self.o.b {
+                return Some([self.s.t, self.p.t, self.o.t]);
+            }
         }
     }
 }
@@ -172,21 +174,23 @@ where
     type Item = Trpl<'a, TI>;
 
     fn next(&mut self) -> Option<Self::Item> {
-        let [ai, bi, ci] = *self.abc.next()?;
-        debug_assert!(Term::eq(&self.terms.get_term(ai), self.a));
+        // NB: a loop rather than a tail call, so that skipping any number of
+        // non-matching rows requires a constant amount of stack
+        loop {
+            let [ai, bi, ci] = *self.abc.next()?;
+            debug_assert!(Term::eq(&self.terms.get_term(ai), self.a));
 
-        if bi != self.b.i {
-            self.b.update(bi, self.terms);
-        }
-        if !self.b.b {
-            return self.next();
-        }
+            if bi != self.b.i {
+                self.b.update(bi, self.terms);
+            }
+            if !self.b.b {
+                continue;
+            }
 
-        self.c.update(ci, self.terms);
-        if !self.c.b {
-            self.next()
-        } else {
-            Some([self.a, self.b.t, self.c.t])
+            self.c.update(ci, self.terms);
+            if self.c.b {
+                return Some([self.a, self.b.t, self.c.t]);
+            }
         }
     }
 }
